@@ -2577,6 +2577,7 @@ impl<'a> Socket<'a> {
         };
 
         let mut is_zero_window_probe = false;
+        let mut is_fast_retransmit = false;
 
         match self.state {
             // We transmit an RST in the CLOSED state. If we ended up in the CLOSED state
@@ -2633,7 +2634,8 @@ impl<'a> Socket<'a> {
                     repr.seq_number = self.local_seq_no;
                     repr.payload = self.tx_buffer.get_allocated(0, size);
 
-                    self.pending_fast_retransmit = false;
+                    // Only cleared once the segment has been handed to the device, see below.
+                    is_fast_retransmit = true;
 
                     0
                 } else {
@@ -2749,6 +2751,12 @@ impl<'a> Socket<'a> {
         // for sure will not be successfully transmitted.
         ip_repr.set_payload_len(repr.buffer_len());
         emit(cx, (ip_repr, repr))?;
+
+        // The fast retransmission is on its way. Had `emit` failed, it stays pending and is
+        // attempted again: the retransmission timer was already cleared above.
+        if is_fast_retransmit {
+            self.pending_fast_retransmit = false;
+        }
 
         // We've sent something, whether useful data or a keep-alive packet, so rewind
         // the keep-alive timer.
